@@ -980,7 +980,10 @@ func runC20(w *World, r *Report) {
 	}
 
 	// ---- chain sticky
-	r.Rule("C20.chain-sticky", "Chain.addNode checks c.err and gg.compiled before anything else; reportError keeps the first error; compile adds END only once", 3)
+	r.Rule("C20.state-handler-validated", "every way of declaring a state pre-/post-handler (plain and stream option constructors) reaches addNode's state validation: guards on option fields in front of the state-type comparison are facts every constructor of that handler establishes", 6)
+	stateHandlerValidationReached(w, r, "C20.state-handler-validated")
+
+	r.Rule("C20.chain-sticky", "Chain.addNode checks c.err and gg.compiled before anything else; reportError keeps the first error; compile adds END only once", 4)
 	chAdd := w.Fn("compose", "Chain.addNode")
 	fErr := w.Field("compose", "Chain", "err")
 	var firstCall ssa.Instruction
@@ -1021,6 +1024,32 @@ func runC20(w *World, r *Report) {
 			return ok && isLoadOfField(x, fErr) && isNilConst(y)
 		}}.exists()
 		r.Check(!skip, "C20.chain-sticky", "Chain.addEndIfNeeded reports the sticky error on every path", aen.Pos(), "no nil return without testing c.err", "the chain's sticky error can be skipped at compile time ("+wit+"): after a first Compile that failed late (END already added), errors of later Append* calls are never reported and the next Compile succeeds")
+	}
+	// compile adds the END edges exactly once per chain, whatever became of earlier Compile attempts: the function owns a
+	// flag on the Chain that (a) guards the edge-adding calls and (b) is set on every successful way out of them
+	{
+		aen := w.Fn("compose", "Chain.addEndIfNeeded")
+		flag, flagStore := chainEndOnceFlag(w)
+		addEdgeM := w.Fn("compose", "Graph.AddEdge")
+		var endEdges []ssa.CallInstruction
+		for _, c := range callsTo(aen, addEdgeM) {
+			endEdges = append(endEdges, c)
+		}
+		good, why := flag != nil && len(endEdges) > 0, "no bool field of Chain is set to true by addEndIfNeeded (the 'END edges are in' marker), or no AddEdge call found"
+		if good {
+			for _, c := range endEdges {
+				if !hasGuard(c.Block(), func(g guard) bool { return !g.pol && isLoadOfField(g.cond, flag) }) {
+					good, why = false, "an AddEdge(…, END) call is not guarded by the chain's own 'END edges are in' flag being false"
+				}
+				if skip, wit := (pathQuery{fn: aen, from: c, goal: func(in ssa.Instruction) bool {
+					ret, ok := in.(*ssa.Return)
+					return ok && isNilConst(ret.Results[0])
+				}, avoid: func(in ssa.Instruction) bool { return in == flagStore }}).exists(); skip {
+					good, why = false, "a successful return after adding END edges does not set the flag: "+wit
+				}
+			}
+		}
+		r.Check(good, "C20.chain-sticky", "Chain.addEndIfNeeded adds the END edges once per chain", aen.Pos(), "AddEdge(…, END) only under the chain's own flag == false; flag set before every nil return that follows", why+": a Compile retried after a failed one (rejected option, nested graph that does not compile) adds `last -> END` again and fails with a duplicate-edge error that then sticks — the same construction sequence gives different outcomes")
 	}
 	// every Append* method reaches addNode / reportError only (no direct graph writes)
 	nApp := 0
@@ -1262,4 +1291,151 @@ func consistentPathExists(f *ssa.Function, from *ssa.BasicBlock, to ssa.Instruct
 		}
 	}
 	return false
+}
+
+// fieldsReadBy collects the struct fields loaded anywhere in the expression tree of v (bounded depth).
+func fieldsReadBy(v ssa.Value, depth int, out map[*types.Var]bool) {
+	if v == nil || depth > 6 {
+		return
+	}
+	if f, _ := loadedField(v); f != nil {
+		out[f.Origin()] = true
+	}
+	if in, ok := v.(ssa.Instruction); ok {
+		if _, isPhi := v.(*ssa.Phi); isPhi {
+			return
+		}
+		for _, op := range in.Operands(nil) {
+			if *op != nil {
+				fieldsReadBy(*op, depth+1, out)
+			}
+		}
+	}
+}
+
+// stateHandlerValidationReached: graph.addNode compares the handler's declared state type with the graph's state type
+// (and the handler's value type with the node's). Those comparisons are guarded by option fields; every guard on a
+// field of graphAddNodeOpts / processorOpts must be a fact that EVERY option constructor declaring that handler
+// establishes (handler != nil, processor != nil, needState == true when the constructor sets it) — otherwise one way of
+// declaring a state handler skips the validation ("state handlers without state" / wrong state type accepted).
+func stateHandlerValidationReached(w *World, r *Report, rule string) {
+	addNode := w.Fn("compose", "graph.addNode")
+	fStateType := w.Field("compose", "graph", "stateType")
+	fNeed := w.Field("compose", "graphAddNodeOpts", "needState")
+	fProc := w.Field("compose", "graphAddNodeOpts", "processor")
+	optsT := w.Named("compose", "graphAddNodeOpts")
+	procT := w.Named("compose", "processorOpts")
+	kinds := []struct {
+		name             string
+		handler, stateTy *types.Var
+	}{
+		{"pre", w.Field("compose", "processorOpts", "statePreHandler"), w.Field("compose", "processorOpts", "preStateType")},
+		{"post", w.Field("compose", "processorOpts", "statePostHandler"), w.Field("compose", "processorOpts", "postStateType")},
+	}
+	for _, k := range kinds {
+		// constructors: function literals that store the handler field
+		type ctor struct {
+			fn       *ssa.Function
+			setsNeed bool
+			setsType bool
+		}
+		var ctors []ctor
+		for _, fn := range w.RepoFuncs("compose") {
+			if fn == addNode {
+				continue
+			}
+			sets := false
+			c := ctor{fn: fn}
+			for _, fw := range fieldWrites(fn) {
+				if sameField(fw.field, k.handler) && fw.kind == "store" {
+					if cst, isConst := fw.val.(*ssa.Const); !isConst || !cst.IsNil() {
+						sets = true
+					}
+				}
+				if sameField(fw.field, k.stateTy) {
+					c.setsType = true
+				}
+				if sameField(fw.field, fNeed) {
+					if cst, ok := fw.val.(*ssa.Const); ok && cst.Value != nil && cst.Value.String() == "true" {
+						c.setsNeed = true
+					}
+				}
+			}
+			if sets {
+				ctors = append(ctors, c)
+			}
+		}
+		if len(ctors) < 2 {
+			r.Fail(rule, "constructors of the state "+k.name+"-handler option", addNode.Pos(), fmt.Sprintf("only %d functions store processorOpts.state%sHandler (expected the plain and the stream constructor)", len(ctors), k.name))
+			continue
+		}
+		allNeed := true
+		for _, c := range ctors {
+			r.Check(c.setsType, rule, w.fname(c.fn)+" records the handler's state type", c.fn.Pos(), "stores "+k.stateTy.Name()+" with the handler", "the constructor declares a state "+k.name+"-handler without its state type: addNode compares a nil type")
+			if !c.setsNeed {
+				allNeed = false
+			}
+		}
+		// the state-type comparison in addNode
+		var tc *ssa.If
+		instrs(addNode, func(in ssa.Instruction) {
+			iff, ok := in.(*ssa.If)
+			if !ok {
+				return
+			}
+			_, x, y, ok := asCmp(iff.Cond)
+			if ok && ((isLoadOfField(x, fStateType) && isLoadOfField(y, k.stateTy)) || (isLoadOfField(y, fStateType) && isLoadOfField(x, k.stateTy))) {
+				tc = iff
+			}
+		})
+		if tc == nil {
+			r.Fail(rule, "addNode validates the state type of the "+k.name+"-handler", addNode.Pos(), "no comparison of graph.stateType with processorOpts."+k.stateTy.Name()+" found")
+			continue
+		}
+		good, why := true, ""
+		for _, g := range guardsOf(tc.Block()) {
+			fs := map[*types.Var]bool{}
+			fieldsReadBy(g.cond, 0, fs)
+			for f := range fs {
+				owner := fieldOwner(w, f)
+				if owner != optsT.Obj() && owner != procT.Obj() {
+					continue
+				}
+				switch {
+				case sameField(f, k.handler), sameField(f, fProc):
+				case sameField(f, fNeed) && g.pol && allNeed:
+				case sameField(f, fNeed):
+					good, why = false, "the validation is skipped unless options.needState is set, and not every constructor of this handler sets it"
+				default:
+					good, why = false, "the validation depends on option field "+f.Name()+", which the handler's constructors do not establish"
+				}
+			}
+		}
+		r.Check(good, rule, "addNode validates the state type of the "+k.name+"-handler however it was declared", tc.Cond.Pos(), fmt.Sprintf("guards on option fields: handler != nil / processor != nil%s; %d constructors", map[bool]string{true: " / needState (set by every constructor)", false: ""}[allNeed], len(ctors)), why+": a node with such a handler is accepted on a graph without state (or with another state type); nothing sticks, Compile succeeds and every run fails at the handler")
+	}
+}
+
+func fieldOwner(w *World, f *types.Var) *types.TypeName {
+	for _, pkg := range w.Pkgs {
+		if pkg.Types != f.Pkg() {
+			continue
+		}
+		sc := pkg.Types.Scope()
+		for _, n := range sc.Names() {
+			tn, ok := sc.Lookup(n).(*types.TypeName)
+			if !ok {
+				continue
+			}
+			st, ok := tn.Type().Underlying().(*types.Struct)
+			if !ok {
+				continue
+			}
+			for i := 0; i < st.NumFields(); i++ {
+				if st.Field(i) == f {
+					return tn
+				}
+			}
+		}
+	}
+	return nil
 }
